@@ -19,10 +19,10 @@ import subprocess
 import sys
 import time
 
-ROOT = "/verif"
+ROOT = os.environ.get("VERIF_ROOT") or os.path.dirname(os.path.dirname(os.path.abspath(__file__)))
 CACHE = os.path.join(ROOT, ".cache")
 COQ = os.path.join(ROOT, "coq")
-REPO = "/repo"
+REPO = os.environ.get("VERIF_REPO") or "/repo"
 TARGET = os.path.join(CACHE, "target")
 RGH = os.path.join(TARGET, "release", "rgh")
 RG = os.path.join(TARGET, "release", "rg")
@@ -45,6 +45,8 @@ def env_base():
     e["CARGO_NET_OFFLINE"] = "true"
     e["RUSTFLAGS"] = "--cfg " + GUARD
     e["CARGO_TARGET_DIR"] = TARGET
+    e["VERIF_ROOT"] = ROOT
+    e["VERIF_REPO"] = REPO
     e.pop("CARGO_BUILD_TARGET_DIR", None)
     return e
 
@@ -135,10 +137,11 @@ def tree_hash(paths):
 def coq_make(clean=False):
     with Lock("coq"):
         gen_from_repo()
+        gen_dispatch_v()
         if clean:
             sh("make clean >/dev/null 2>&1; find theories -name '*.vo' -delete -o -name '*.glob' -delete "
                "-o -name '*.vok' -delete -o -name '*.vos' -delete", cwd=COQ)
-        rc, out = sh(os.path.join(ROOT, "tools", "coqbuild.sh"), timeout=3300)
+        rc, out = sh([os.path.join(ROOT, "tools", "coqbuild.sh")], timeout=3300)
         return rc == 0, out
 
 
@@ -211,7 +214,7 @@ def build_driver():
         h = tree_hash(files)
         if os.path.exists(stamp) and os.path.exists(DRIVER) and open(stamp).read() == h:
             return True, "cached"
-        rc, out = sh(os.path.join(ROOT, "tools", "build_driver.sh"), timeout=1800)
+        rc, out = sh([os.path.join(ROOT, "tools", "build_driver.sh")], timeout=1800)
         if rc == 0:
             open(stamp, "w").write(h)
         return rc == 0, out
@@ -220,6 +223,7 @@ def build_driver():
 def build_harness(need_rg=True):
     with Lock("cargo"):
         hd = os.path.join(ROOT, "harness")
+        gen_harness_files()
         lock = os.path.join(hd, "Cargo.lock")
         src = open(os.path.join(REPO, "Cargo.lock")).read()
         if not os.path.exists(lock):
@@ -233,6 +237,46 @@ def build_harness(need_rg=True):
             if rc2 != 0 or "Finished" not in out2:
                 return False, out
         return True, out
+
+
+def write_if_changed(path, text):
+    if os.path.exists(path) and open(path).read() == text:
+        return
+    open(path, "w").write(text)
+
+
+def gen_harness_files():
+    """harness/Cargo.toml from Cargo.toml.in (repo path), harness/src/mods.rs from the c*.rs present"""
+    hd = os.path.join(ROOT, "harness")
+    t = open(os.path.join(hd, "Cargo.toml.in")).read().replace("@REPO@", REPO)
+    write_if_changed(os.path.join(hd, "Cargo.toml"), t)
+    os.makedirs(os.path.join(hd, ".cargo"), exist_ok=True)
+    write_if_changed(os.path.join(hd, ".cargo", "config.toml"),
+                     "[net]\noffline = true\n[build]\ntarget-dir = \"%s\"\n" % TARGET)
+    mods = sorted(f[:-3] for f in os.listdir(os.path.join(hd, "src")) if re.match(r"c\d\d\.rs$", f))
+    body = "// generated by tools/vlib.py gen_harness_files — do not edit\n"
+    for m in mods:
+        body += "mod %s;\n" % m
+    body += "pub fn dispatch(kind: u32, v: &crate::val::Val) -> crate::val::Val {\n"
+    for m in mods:
+        body += "    if let Some(r) = %s::dispatch(kind, v) { return r; }\n" % m
+    body += "    crate::val::Val::L(vec![])\n}\n"
+    write_if_changed(os.path.join(hd, "src", "mods.rs"), body)
+
+
+def gen_dispatch_v():
+    """coq/theories/Run/Dispatch.v from the Run/RunC*.v present (each defines entry : N -> val -> option val)"""
+    rd = os.path.join(COQ, "theories", "Run")
+    mods = sorted(f[:-2] for f in os.listdir(rd) if re.match(r"RunC\d\d\.v$", f))
+    body = "(* generated by tools/vlib.py gen_dispatch_v — do not edit *)\n"
+    body += "From RG Require Import Base.Bytes Base.Val.\n"
+    for m in mods:
+        body += "From RG Require Run.%s.\n" % m
+    body += "\nDefinition dispatch (k : N) (v : val) : val :=\n"
+    for m in mods:
+        body += "  match %s.entry k v with Some r => r | None =>\n" % m
+    body += "  VL []" + " end" * len(mods) + ".\n"
+    write_if_changed(os.path.join(rd, "Dispatch.v"), body)
 
 
 # ----------------------------------------------------------------------------- running cases
